@@ -239,6 +239,24 @@ def run(ctx, model_ok):
         text = render(tree, lambda: g)
         if admissible(text):
             cases.append({"text": text, "f": evalf(tree), "q": evalq(tree), "ops": nops(tree), "kind": "cancel"})
+    # tiny divisors, down to the subnormal range: a divisor that is not zero divides (only a zero divisor gives 0)
+    lit_ = lambda s_: ("prim", ("lit", Lit(s_)))
+    one_ = lambda x: ("one", x)
+    for k in [14, 15, 16, 17, 20, 40, 150, 290, 300, 305, 306, 307, 308, 309, 310, 315, 320, 322]:
+        for _ in range(ctx.n(2, 20)):
+            dgt = str(rng.randint(1, 9))
+            t = "0." + "0" * k + dgt
+            u = "0." + "0" * max(0, k - rng.randint(0, 12)) + str(rng.randint(1, 9))
+            for tree in (one_(("div", one_(lit_(t)), lit_(t))),
+                         one_(("div", one_(("paren", ("add", one_(one_(lit_(t))), one_(lit_(t))))) if False else one_(lit_(u)), lit_(t))),
+                         one_(("div", one_(lit_(str(rng.randint(1, 9)))), lit_(t))) if k < 300 else one_(("div", one_(lit_(u)), lit_(t)))):
+                g = rng.choice(["", " "])
+                text = render(tree, lambda: g)
+                if len(text) <= 800:
+                    cases.append({"text": text, "f": evalf(tree), "q": evalq(tree), "ops": 1, "kind": "tiny-divisor"})
+            text = f"({t.replace('.', ',')} + {t.replace('.', ',')}) / {t.replace('.', ',')}"
+            ft = float(t)
+            cases.append({"text": text, "f": gdivf(ft + ft, ft), "q": Fraction(2), "ops": 2, "kind": "tiny-divisor"})
     # quotient chains 'a / b / c' that are NOT a calendar date (day 29-31 of a short month, day 0 or 32+, month 0 or 13+):
     # the property excludes only the chains that read as a valid day/month/year
     for _ in range(ctx.n(150, 3000)):
